@@ -683,6 +683,17 @@ class BroadcastJoin(Merge, PartitionsFiltered):
         "_partitions": None,
     }
 
+    @functools.cached_property
+    def broadcast_side(self):
+        # A left (right) join can only broadcast its right (left) input. Do
+        # not re-derive the side from the partition counts: an ``npartitions``
+        # hint may have repartitioned the other input to fewer partitions.
+        if self.how == "left":
+            return "right"
+        if self.how == "right":
+            return "left"
+        return "left" if self.left.npartitions < self.right.npartitions else "right"
+
     def _divisions(self):
         if self.broadcast_side == "left":
             return self.right._divisions()
